@@ -17,11 +17,14 @@ SPECS["C05"] = {
         {"name": "VerifC05_AddHeaders", "quick": {"params": lengths(16)}, "thorough": {"params": lengths(24)}, "expect_reach": ["end", "parsed", "rejected"]},
         {"name": "VerifC05_StreamPath", "quick": {"params": lengths(13)}, "thorough": {"params": lengths(21)}, "expect_reach": ["end", "parsed", "rejected"]},
         {"name": "VerifC05_ExecuteFrame", "quick": {"params": lengths(12)}, "thorough": {"params": lengths(20)}},
+        {"name": "VerifC05_HTTPHandler", "quick": {"params": [0, 1, 2, 3, 4], "procs": 5}, "thorough": {"params": [0, 1, 2, 3, 4, 5, 6], "procs": 7, "flags": ["-par", "2"]}},
+        {"name": "VerifC05_HTTPClient", "native": False, "quick": {"params": [0, 1, 2, 3, 4, 5], "procs": 3}, "thorough": {"params": [0, 1, 2, 3, 4, 5, 6, 7], "procs": 4, "flags": ["-par", "3"]},
+         "expect_reach": ["end", "rejected"]},
         {"name": "VerifC05_NatsHandler", "quick": {"params": lengths(10)}, "thorough": {"params": lengths(16)}},
     ])],
     "level_text": "Bounded symbolic model checking of the real receive paths: for every buffer length up to the bound and every byte content (and both capacity shapes) each entry point is executed symbolically from go/ssa; every slice/index/make/nil run-time check and every assertion is a z3 query, so 'no panic, value or error, terminates' holds for all inputs inside the bound. Outside: longer buffers, allocation sizes above 40 are represented by one witness per path, real sockets.",
     "level_note": "Trusted: go/ssa construction, the gose interpreter (validated per run by executing sampled path witnesses natively and comparing coverage labels), z3. Stubs: logrus (no-op), fmt (host formatting), errors.Is/As (chain walk), sync primitives (engine).",
-    "bounds": {"quick": "buffer length 0..10-16 bytes depending on the entry point (one engine process per length), all byte values, capacity = length or length+3",
+    "bounds": {"quick": "HTTP handler: base64 body of 0..4 characters from 4 classes, 5 Content-Length values, 5 limit headers; buffer length 0..10-16 bytes depending on the entry point (one engine process per length), all byte values, capacity = length or length+3",
                "thorough": "buffer length 0..16-24 bytes"},
     "assumptions": [],
 }
@@ -44,8 +47,9 @@ SPECS["C09"] = {
     "level": "model_checking",
     "groups": [dict(LIBGO, entries=[
         {"name": "VerifC09_ContextRoundTrip", "quick": {"params": [0, 1], "bound": 2}, "thorough": {"params": [0, 1, 2], "bound": 2, "procs": 3}},
+        {"name": "VerifC09_ThroughProcessor", "quick": {"params": [0], "bound": 2}, "thorough": {"params": [0], "bound": 3}},
     ])],
-    "level_text": "Bounded symbolic model checking of the real header path of a call (NewFContext, AddRequestHeader, SetTimeout/Timeout, FProtocol.WriteRequestHeader -> bytes -> ReadRequestHeader on the server, AddResponseHeader, WriteResponseHeader -> bytes -> ReadResponseHeader on the client): for all user header names/values (arbitrary bytes, non-reserved names), correlation ids and a set of timeouts the handler context sees exactly the user headers, cid and timeout, carries a fresh op id drawn from the local counter, the response carries the request op id and cid, every handler-set response header reaches the caller and the caller's request headers and own op id are untouched. Pub/sub uses the same ReadRequestHeader. Outside: transports (bytes moved verbatim), more/longer headers than the bound.",
+    "level_text": "Bounded symbolic model checking of the real header path of a call (NewFContext, AddRequestHeader, SetTimeout/Timeout, FProtocol.WriteRequestHeader -> bytes -> ReadRequestHeader on the server, AddResponseHeader, WriteResponseHeader -> bytes -> ReadResponseHeader on the client): for all user header names/values (arbitrary bytes, non-reserved names), correlation ids and a set of timeouts the handler context sees exactly the user headers, cid and timeout, carries a fresh op id drawn from the local counter, the response carries the request op id and cid, every handler-set response header reaches the caller and the caller's request headers and own op id are untouched. Pub/sub uses the same ReadRequestHeader. The same obligations are also observed inside a handler behind FBaseProcessor.Process and a processor function of the generated shape (user header, correlation id, timeout from {0 = no deadline, 1 ms, 250 ms, 5 s, 1 h}, fresh op id) and in the reply frame the server produced (op id, correlation id, handler-set response header). Outside: transports (bytes moved verbatim), more/longer headers than the bound.",
     "level_note": "Trusted: go/ssa, gose interpreter, z3. Stubs: fmt, logrus, strconv fast path for concrete digits, sync (engine mutexes).",
     "bounds": {"quick": "<= 1 user request header, <= 2 response headers, names 1..2 bytes, values 0..2 bytes, cid 1..2 bytes, 6 timeout values", "thorough": "<= 2 user request headers"},
     "assumptions": [],
@@ -56,9 +60,10 @@ SPECS["C12"] = {
     "groups": [dict(LIBGO, entries=[
         {"name": "VerifC12_BufferLimit", "quick": {"params": [1, 2, 3], "bound": 2}, "thorough": {"params": [1, 2, 3, 4], "bound": 5, "procs": 4}, "expect_reach": ["end", "accepted", "rejected"]},
         {"name": "VerifC12_PrepareMessage", "quick": {"params": [0, 1, 2], "bound": 3}, "thorough": {"params": [0, 1, 2], "bound": 12}, "expect_reach": ["end", "fits", "too-large"]},
+        {"name": "VerifC12_HTTPResponseLimit", "quick": {"params": [0, 1], "bound": 1}, "thorough": {"params": [0, 1, 2], "bound": 2}, "expect_reach": ["end", "fits", "too-large"]},
         {"name": "VerifC12_SendReply", "quick": {"params": [0, 1, 2], "bound": 3}, "thorough": {"params": [0, 1, 2], "bound": 12}, "expect_reach": ["end", "fits", "too-large"]},
     ])],
-    "level_text": "Bounded symbolic model checking of the real limit enforcement: (a) TMemoryOutputBuffer driven through thrift.TRichTransport (Write, WriteString, WriteByte) with an arbitrary limit 0..40 and up to 3 (4) writes of arbitrary length: a write is rejected iff it would exceed the limit, with REQUEST_TOO_LARGE, buffer reset, prefix exact; (b) FStandardClient.prepareMessage with the real TBinaryProtocol and a message whose large string is first/middle/last, limit around the exact framed size (computed independently): fails iff over, and the next in-limit message succeeds; (c) FBaseProcessorFunction.SendReply with an oversize result produces exactly one RESPONSE_TOO_LARGE exception which FStandardClient.processReply maps to transport error 101, in-limit replies arrive intact. Outside: the per-transport publish/request checks of NATS/STOMP/HTTP, other runtimes.",
+    "level_text": "Bounded symbolic model checking of the real limit enforcement: (a) TMemoryOutputBuffer driven through thrift.TRichTransport (Write, WriteString, WriteByte) with an arbitrary limit 0..40 and up to 3 (4) writes of arbitrary length: a write is rejected iff it would exceed the limit, with REQUEST_TOO_LARGE, buffer reset, prefix exact; (b) FStandardClient.prepareMessage with the real TBinaryProtocol and a message whose large string is first/middle/last, limit around the exact framed size (computed independently): fails iff over, and the next in-limit message succeeds; (c) FBaseProcessorFunction.SendReply with an oversize result produces exactly one RESPONSE_TOO_LARGE exception which FStandardClient.processReply maps to transport error 101, in-limit replies arrive intact. (d) the HTTP server handler (NewFrugalHandlerFunc, real base64 codec and FBaseProcessor) called 2..3 (4) times in a row with the client-requested limit at size-1 / size / size+1 / 1: 413 iff the response exceeds the limit, otherwise the exact frame, and every later request is judged on its own. Outside: the request-side checks of the NATS/STOMP/HTTP client transports, other runtimes.",
     "level_note": "Trusted: go/ssa, gose interpreter, z3; thrift's TBinaryProtocol and bytes.Buffer are executed from their real SSA. Stubs: fmt, logrus, context (engine model), sync.",
     "bounds": {"quick": "limit 0..40 symbolic, <= 3 writes of 0..2 bytes; string sizes within 3 of the boundary", "thorough": "<= 4 writes of 0..5 bytes; string sizes within 12 of the boundary"},
     "assumptions": ["(c): the limit admits the RESPONSE_TOO_LARGE reply itself (>= 160 bytes)"],
@@ -133,14 +138,16 @@ SPECS["C15"] = {
         {"name": "VerifC15_Monitored", "native": False, "quick": {"params": [0, 1], "flags": ["-preempt", "1"]}, "thorough": {"params": [0, 1, 2], "flags": ["-preempt", "2"]},
          "expect_reach": ["end", "second-failure-notified"]},
         {"name": "VerifC15_ReopenPolicy", "quick": {"params": [0]}, "thorough": {"params": [0]}},
+        {"name": "VerifC15_RepeatedOutages", "native": False, "quick": {"params": [0, 1], "flags": ["-preempt", "1"]}, "thorough": {"params": [0, 1, 2], "flags": ["-preempt", "2"]},
+         "expect_reach": ["end", "later-outage-with-refusals", "budget-exhausted"]},
     ])],
-    "level_text": "Bounded symbolic execution with threads of the real fAdapterTransport life-cycle (Open, readLoop, readFrame, TFramedTransport, close, Closed, IsOpen, SetMonitor, monitorRunner) over a harness byte stream: 2 (3) generations of open -> failure -> reopen where the failure is a clean EOF at a frame boundary, an EOF inside a frame (cut inside the size prefix, after it, inside the headers, one byte short; thorough: every offset), a read error, an unprocessable frame, or a user Close: every generation ends closed, publishes exactly one close cause (nil required for a user close, non-nil required for errors) and then closes the channel, reports ALREADY_OPEN / NOT_OPEN consistently, never deadlocks; with a monitor attached every unclean close is notified and followed by a reopen, repeatedly, and the final clean close is notified. Sequentially, BaseFTransportMonitor + monitorRunner.attemptReopen with symbolic MaxReopenAttempts (0..3), symbolic InitialWait <= MaxWait (any int64 below 2^55) and 0..4 failing Opens: attempts never exceed the maximum, no wait exceeds MaxWait, success iff an attempt within the budget succeeds. Outside: NATS/HTTP transports, write-side failures, real sockets.",
+    "level_text": "Bounded symbolic execution with threads of the real fAdapterTransport life-cycle (Open, readLoop, readFrame, TFramedTransport, close, Closed, IsOpen, SetMonitor, monitorRunner) over a harness byte stream: 2 (3) generations of open -> failure -> reopen where the failure is a clean EOF at a frame boundary, an EOF inside a frame (cut inside the size prefix, after it, inside the headers, one byte short; thorough: every offset), a read error, an unprocessable frame, or a user Close: every generation ends closed, publishes exactly one close cause (nil required for a user close, non-nil required for errors) and then closes the channel, reports ALREADY_OPEN / NOT_OPEN consistently, never deadlocks; with a monitor attached every unclean close is notified and followed by a reopen, repeatedly, and the final clean close is notified. With the default policy (MaxReopenAttempts 1..2) attached and 2..3 (4) outages in which 0..budget reopen attempts are refused, every outage gets the full budget again. Sequentially, BaseFTransportMonitor + monitorRunner.attemptReopen with symbolic MaxReopenAttempts (0..3), symbolic InitialWait <= MaxWait (any int64 below 2^55) and 0..4 failing Opens: attempts never exceed the maximum, no wait exceeds MaxWait, success iff an attempt within the budget succeeds. Outside: NATS/HTTP transports, write-side failures, real sockets.",
     "level_note": "Trusted: go/ssa, gose interpreter and scheduler model, z3. time.Sleep is redirected to a logging stub in the policy harness. " + SCHED_NOTE,
     "bounds": {"quick": "2 generations, 6 cut offsets, delay bound 1; monitor: 2-3 failures", "thorough": "3 generations, every cut offset; monitor: delay bound 2"},
     "assumptions": [],
 }
 
-NATS_NOTE = "nats.go / go-stomp are not interpreted: their methods are redirected to the contract model written in Go in harness/libgo/zz_verif_nats.go (one dispatcher goroutine per subscription calling the callback sequentially in arrival order; Unsubscribe stops delivery at once; Drain stops intake and delivers what is pending; Barrier(f) runs f after everything pending at the call was handed to callbacks) and to a channel-backed stomp.Subscription; results are relative to that contract. "
+NATS_NOTE = "nats.go / go-stomp are not interpreted: their methods are redirected to the contract model written in Go in harness/libgo/zz_verif_nats.go (one dispatcher goroutine per subscription calling the callback sequentially in arrival order; Unsubscribe stops delivery at once; Drain delivers what is pending and stops intake once the server has processed the UNSUB - by itself or at the latest at the next Flush - until then messages of other connections may still arrive; Barrier(f) runs f after everything pending at the call was handed to callbacks) and to a channel-backed stomp.Subscription; results are relative to that contract. "
 
 SPECS["C07"] = {
     "level": "model_checking",
@@ -148,11 +155,13 @@ SPECS["C07"] = {
         {"name": "VerifC07_NatsPubSub", "native": False, "quick": {"params": [1, 2], "bound": 1, "flags": ["-preempt", "1"]},
          "thorough": {"params": [1, 2, 3], "bound": 2, "flags": ["-preempt", "1", "-par", "5"], "procs": 3},
          "expect_reach": ["end", "valid", "short-frame", "bad-header", "other-op", "foreign-topic"]},
+        {"name": "VerifC07_TwoSubscribers", "native": False, "quick": {"params": [0, 1], "flags": ["-preempt", "1"]}, "thorough": {"params": [0, 1], "flags": ["-preempt", "2", "-par", "4"]},
+         "expect_reach": ["end", "builder-made"]},
         {"name": "VerifC07_StompSub", "native": False, "quick": {"params": [1, 2], "bound": 1, "flags": ["-preempt", "1"]},
          "thorough": {"params": [1, 2, 3], "bound": 2, "flags": ["-preempt", "1", "-par", "5"], "procs": 3},
          "expect_reach": ["end", "valid", "short-frame", "bad-header", "other-op", "handler-fails"]},
     ])],
-    "level_text": "Bounded symbolic execution with threads of the real publish path (FStandardClient.Publish/prepareMessage, fNatsPublisherTransport.Publish) and the real subscriber transports (fNatsSubscriberTransport.Subscribe/putMessageToWorkerQueue/worker/Unsubscribe; fStompSubscriberTransport.Subscribe/processMessages/ackMessage/Unsubscribe) with a receive callback of the generated shape (ReadRequestHeader, ReadMessageBegin, op check, payload, handler): for every sequence of n messages, each one valid (symbolic payload and header), shorter than 4 bytes, with a corrupt header block, for another operation, on another topic, or (STOMP) with a failing handler, the handler runs exactly once per valid message of this topic and operation, in publish order, with equal payload, header and correlation id; bad messages never stop later ones (a lost message is a deadlock of the harness); STOMP acks exactly the successfully handled messages once; nothing published after Unsubscribe returned reaches the handler; no goroutine panics. Outside: real brokers, multi-worker ordering, generated recv code (hand-written equivalent here).",
+    "level_text": "Bounded symbolic execution with threads of the real publish path (FStandardClient.Publish/prepareMessage, fNatsPublisherTransport.Publish) and the real subscriber transports (fNatsSubscriberTransport.Subscribe/putMessageToWorkerQueue/worker/Unsubscribe; fStompSubscriberTransport.Subscribe/processMessages/ackMessage/Unsubscribe) with a receive callback of the generated shape (ReadRequestHeader, ReadMessageBegin, op check, payload, handler): for every sequence of n messages, each one valid (symbolic payload and header), shorter than 4 bytes, with a corrupt header block, for another operation, on another topic, or (STOMP) with a failing handler, the handler runs exactly once per valid message of this topic and operation, in publish order, with equal payload, header and correlation id; bad messages never stop later ones (a lost message is a deadlock of the harness); STOMP acks exactly the successfully handled messages once; nothing published after Unsubscribe returned reaches the handler; no goroutine panics; two subscribers made by one factory (builder-made or plain) on different topics each receive exactly their own messages, and unsubscribing one leaves the other working. Outside: real brokers, multi-worker ordering, generated recv code (hand-written equivalent here).",
     "level_note": "Trusted: go/ssa, gose interpreter and scheduler model, z3. " + NATS_NOTE + SCHED_NOTE,
     "bounds": {"quick": "n <= 2 messages, payload 1 byte, header 1 byte, delay bound 1", "thorough": "n <= 3 messages, payload 2 bytes"},
     "assumptions": ["broker contract as modelled", "single worker (default)"],
@@ -161,11 +170,11 @@ SPECS["C07"] = {
 SPECS["C20"] = {
     "level": "model_checking",
     "groups": [dict(LIBGO, entries=[
-        {"name": "VerifC20_ShutdownDrains", "native": False, "quick": {"params": [0, 1, 2, 3, 4, 5], "bound": 2, "flags": ["-preempt", "2"], "procs": 6},
+        {"name": "VerifC20_ShutdownDrains", "native": False, "quick": {"params": [0, 1, 2, 3, 4, 5], "bound": 2, "flags": ["-preempt", "2", "-par", "2"], "procs": 6},
          "thorough": {"params": [0, 1, 2, 3, 4, 5], "bound": 3, "flags": ["-preempt", "2", "-par", "2"], "procs": 6},
          "expect_reach": ["end", "racing-request", "burst-exceeds-queue"]},
     ])],
-    "level_text": "Bounded symbolic execution with threads of the real fNatsServer (Serve, handler, worker, processFrame, Stop, drainNatsMessages) with a counting processor whose handler takes an arbitrary time, for workers in {1,2} x queue length in {0,1,2}: r requests received before Stop is called, optionally one racing with Stop and one arriving after Stop returned: every request received before Stop is processed exactly once and its reply is published before Serve returns; the late one is not processed; the racing one at most once and answered iff processed; Stop and Serve return (no deadlock) also when the burst exceeds queue+workers. Outside: real nats.go internals.",
+    "level_text": "Bounded symbolic execution with threads of the real fNatsServer (Serve, handler, worker, processFrame, Stop, drainNatsMessages) with a counting processor whose handler takes an arbitrary time, for workers in {1,2} x queue length in {0,1,2}, with a handler that is fast or lets 10 s of virtual time pass: r requests received before Stop is called, optionally one racing with Stop and one arriving after Stop returned: every request received before Stop is processed exactly once and its reply is published before Serve returns; the late one is not processed; the racing one at most once and answered iff processed; Stop and Serve return (no deadlock) also when the burst exceeds queue+workers. Outside: real nats.go internals.",
     "level_note": "Trusted: go/ssa, gose interpreter and scheduler model, z3. " + NATS_NOTE + SCHED_NOTE,
     "bounds": {"quick": "r <= 2 requests before Stop, delay bound 2", "thorough": "r <= 3"},
     "assumptions": ["nats.go Drain/Flush/Barrier contract as modelled", "worker count >= 1"],
